@@ -95,6 +95,12 @@ pub fn plans(prop: &str) -> Vec<Plan> {
 
 /// Property-specific bias applied to a generated configuration so that the runs of a check exercise its oracles.
 pub fn bias_cfg(prop: &str, cfg: &mut Cfg, rng: &mut Rng) {
+    if cfg.engine == "B" && prop == "C04" && cfg.family == "session" && rng.chance(1, 4) {
+        // a contended server: more clients than slots, so that refusals and late handshake replies are part of the history
+        cfg.set("maxcl", 1);
+        cfg.set("nslots", rng.range(2, 4));
+        cfg.set("adv", rng.range(1, 2));
+    }
     if cfg.engine == "B" {
         if prop == "C10" && cfg.family == "handshake" && rng.chance(1, 2) {
             // capacity races: many identities, a small table, limit moved at run time, a clean network
